@@ -112,3 +112,21 @@ Theorem prefix_was_safe : forall path,
   (slen path <= INT_MAX -> level_valid path = LvTrue).
 Proof. exact prefix_was_safe_lemma. Qed.
 Print Assumptions prefix_was_safe.
+
+(* The Path iterator by itself: iterating yields exactly the non-empty slash-free pieces, in order;
+   repeated, leading and trailing slashes yield nothing. *)
+Theorem iterator_visits_components : forall p,
+  iter_collect (S (length p)) (iter_begin p) = Some (components p) /\
+  Forall (fun c => c <> [] /\ Forall (fun x => x <> SLASH) c) (components p) /\
+  (forall a b, components (a ++ SLASH :: b) = components a ++ components b) /\
+  (forall n, n <> [] -> Forall (fun x => x <> SLASH) n -> components n = [n]).
+Proof. exact iterator_visits_components_lemma. Qed.
+Print Assumptions iterator_visits_components.
+
+(* Neither init nor PathCat writes beyond its PATH_MAX-byte buffer. *)
+Theorem buffers_fit : forall st base fs, slen base < 4294967296 ->
+  subfs_init st base = InitOk fs ->
+  base_path_len fs <= PATH_MAX - 1 /\
+  forall path fwd, base_path fs <> [] -> pathcat fs path = PcOk (PStr fwd) -> slen fwd + 1 <= PATH_MAX - 2.
+Proof. exact buffers_fit_lemma. Qed.
+Print Assumptions buffers_fit.
